@@ -9,6 +9,7 @@ mod sites;
 mod util;
 mod tables;
 mod builders;
+mod clientgen;
 mod codec;
 
 use std::path::PathBuf;
@@ -34,4 +35,6 @@ fn main() {
     util::write_if_changed(&out.join("gen_chains.rs"), &b.rust);
     let c = codec::translate(&repo);
     util::write_if_changed(&out.join("CodecTables.v"), &c);
+    let cl = clientgen::translate(&repo);
+    util::write_if_changed(&out.join("ClientTables.v"), &cl);
 }
